@@ -5,6 +5,7 @@ go 1.18
 require (
 	github.com/gorilla/websocket v1.0.1-0.20161018003955-8003df83eef3
 	github.com/samsarahq/thunder v0.0.0
+	github.com/siddontang/go-mysql v0.0.0-20160925014134-d8e777f00cdb
 )
 
 require (
@@ -12,7 +13,11 @@ require (
 	github.com/gogo/protobuf v1.1.2-0.20180914054005-e14cafb6a2c2 // indirect
 	github.com/golang/protobuf v1.4.2 // indirect
 	github.com/graphql-go/graphql v0.4.19-0.20160928141709-8c317402d1b7 // indirect
+	github.com/juju/errors v0.0.0-20220203013757-bd733f3c86b9 // indirect
+	github.com/ngaut/log v0.0.0-20160810023011-cec23d3e10b0 // indirect
 	github.com/samsarahq/go v0.0.0-20181026175739-13570df44b46 // indirect
+	github.com/satori/go.uuid v0.0.0-20160218235746-e673fdd4dea8 // indirect
+	github.com/siddontang/go v0.0.0-20161005110831-1e9ce2a5ac40 // indirect
 	golang.org/x/net v0.0.0-20211216030914-fe4d6282115f // indirect
 	golang.org/x/sync v0.0.0-20190423024810-112230192c58 // indirect
 	golang.org/x/sys v0.0.0-20210806184541-e5e7981a1069 // indirect
